@@ -148,6 +148,7 @@ func verifEncode(v any, n int) []byte
 func verifEventCount(kind string) int
 func verifEvent(kind string)
 func verifQuiesce()
+func verifMapOrders(all bool)
 func verifFreezeClock(on bool)
 func verifLimiterAlwaysGrants()
 func verifFireTimers() int
